@@ -64,6 +64,17 @@ def fuzzy_instances(tier):
                         "greedy_ascii::<%d, %d>(%d, %d, Some(%s))" % (h, n, s, g, pa), ["C01", "C03", "C10"],
                         {"H": h, "N": n, "start": s, "greedy_end": g, "repr": "ascii x ascii",
                          "bonus_profile": "match_paths" if pa == "true" else "default"}, "matcher_fuzzy"))
+    # long gaps (score floored at zero)
+    for k, (h, st) in enumerate([(20, 0), (20, 1)] if tier == "quick" else [(19, 0), (19, 1), (20, 0), (20, 1), (22, 1)]):
+        pa = _pth(k)
+        out.append(Inst("optimal_gap_ascii_h%d_s%d" % (h, st), h + 2, "optimal_gap_ascii::<%d, %d>(%d, Some(%s))" % (h, k % 2, st, pa), A,
+                        {"H": h, "N": 2, "shape": "2 symbolic chars + %d copies of one symbolic filler + 2 symbolic chars" % (h - 4), "window": [st, h],
+                         "bonus_profile": "match_paths" if pa == "true" else "default"}, "matcher_fuzzy"))
+    # scratch layout under the REAL constants
+    for nm, asc in (("layout_real_ascii", "true"), ("layout_real_char", "false")):
+        i = Inst(nm, 8, "layout_real(%s)" % asc, ["C10"], {"haystack_len": "symbolic, up to 70 000", "needle_len": "symbolic", "constants": "real (100 KiB cells, 2048, 65535)"}, "matcher_fuzzy")
+        i.small = False
+        out.append(i)
     # S: the scoring walk on concrete windows (with and without gaps)
     if tier == "quick":
         sw = [(4, 2, 1, 3), (4, 2, 0, 4), (5, 3, 0, 3), (5, 3, 1, 5), (5, 2, 0, 5)]
@@ -214,7 +225,9 @@ def compose_instances(tier):
 
 def utf32_instances(tier):
     out = []
-    names = [("convert_ascii_l2", 2), ("convert_ascii_l3", 3), ("views_ascii_l3", 3), ("views_unicode_l3", 3)] if tier == "quick" else \
+    # conversion of text that may contain CR LF runs unicode-segmentation's GraphemeCursor symbolically
+    # (binary searches in its category tables): > 13 min already for 2 bytes, so it is thorough-only
+    names = [("views_ascii_l3", 3), ("views_unicode_l3", 3), ("views_unicode_l4", 4)] if tier == "quick" else \
             [("convert_ascii_l2", 2), ("convert_ascii_l3", 3), ("convert_ascii_l4", 4), ("views_ascii_l3", 3), ("views_unicode_l3", 3), ("views_unicode_l4", 4)]
     for n, l in names:
         out.append(Inst(n, 12, None, ["C17"], {"L": l, "content": "symbolic ASCII bytes (all CR/LF arrangements)" if "ascii" in n else "symbolic scalars", "ranges": "symbolic valid ranges"}, None))
@@ -274,12 +287,13 @@ FAMILIES = {
 }
 
 
-def write_gen(sc, tier, extra=()):
-    """(Re)generates every instance list and reference table from the current tree."""
+def write_gen(sc, tier, extra=(), small=True):
+    """(Re)generates every instance list and reference table from the current tree. `small`: which
+    geometry this compile pass uses (instances are compiled only in the pass they ask for)."""
     import ucd_ref
-    fams = {}
+    fams = {f: [] for f in FAMILIES if f.startswith("matcher_")}
     for i in list(all_instances(tier)) + list(extra):
-        if i.family:
+        if i.family and getattr(i, "small", True) == small:
             fams.setdefault(i.family, [])
             if not any(j.name == i.name for j in fams[i.family]):
                 fams[i.family].append(i)
